@@ -44,12 +44,27 @@ class Ctx:
         self.assert_exn = None    # e.g. "E_Exception": `assert c[, msg]` becomes `if c then <rest> else Raise <assert_exn>`
                                   # (AssertionError is raised exactly when c is false; python -O is not modelled); None: unsupported
         self.int_boolop = False   # True: `a or b` / `a and b` on two integers has Python's VALUE semantics (a if a != 0 else b)
+        self.obj_fragment = False   # True: values of named record types and `T | None` (type ("opt", T) = option T):
+                                    # None, `x is None`, narrowing `if x is None [or y is None]: <leaves>` / `if x is None: x = e`,
+                                    # operators on non-integers through the tables below, keyword calls of kwfuncs, a call statement of a
+                                    # raising function, declared optional return types
+        self.binops = {}      # (ast op class name, left type, right type) -> (template with {l} {r}, result type, monad)
+        self.unops = {}       # (ast op class name, operand type) -> (template with {x}, result type, monad)
+        self.cmpops = {}      # (ast op class name, left type, right type) -> template with {l} {r} (a bool)
+        self.truth = {}       # type -> template with {x}: truthiness of a value of that type
+        self.kwfuncs = {}     # callable name -> (coq name, [parameter names], {name: default coq expr}, [types], result type, monad)
         self.list_fragment = False  # True: lists of ints (Lib/PyList.v): list displays, len, list(x), l[a:b], truthiness of a list,
                                     # `a, b = <list>` (ValueError unless 2 long), in-place `l[i] op= e` / `l[i][j] op= e` on a FRESH local
                                     # list (functional update, IndexError outside), `for i in range(a, b)`; bool/int joins coerce to int
 
 
+def is_opt(t):
+    return isinstance(t, tuple) and len(t) == 2 and t[0] == "opt"
+
+
 def _tname(t):
+    if is_opt(t):
+        return f"(option {_tname(t[1])})"
     if isinstance(t, tuple):
         return "(" + " * ".join(_tname(x) for x in t) + ")"
     if t == "list":      # a row of a constant table held in a local variable (C07: months_offsets = MONTHS_OFFSETS[leap])
@@ -60,7 +75,7 @@ def _tname(t):
 
 
 class FunTr:
-    def __init__(self, ctx: Ctx, fn: ast.FunctionDef, coq_name: str, argtypes=None, self_type=None, fuel_default=64):
+    def __init__(self, ctx: Ctx, fn: ast.FunctionDef, coq_name: str, argtypes=None, self_type=None, fuel_default=64, ret_decl=None, force_result=False):
         self.ctx = ctx
         self.fn = fn
         self.name = coq_name
@@ -86,7 +101,10 @@ class FunTr:
         self.argtypes = argtypes or {}
         self.self_type = self_type
         self.rettype = None
+        self.ret_decl = ret_decl      # declared return type (needed when a function returns None or a value: ("opt", T))
         # does the body call something monadic?
+        if force_result:      # (operators of the object fragment may raise: the caller knows)
+            self.uses_raise = True
         self.monad = "result" if self.uses_raise else ("option" if self.uses_loop else None)
 
     # ---------- calls to callees that can raise (monad "result") ----------
@@ -96,6 +114,8 @@ class FunTr:
             return False
         f = n.func
         if isinstance(f, ast.Name):
+            if self.ctx.obj_fragment and f.id in self.ctx.kwfuncs:
+                return self.ctx.kwfuncs[f.id][5] == "result"
             return f.id in self.ctx.funcs and self.ctx.funcs[f.id][3] == "result"
         if isinstance(f, ast.Attribute):
             path = ast.unparse(f)
@@ -164,6 +184,8 @@ class FunTr:
                 return ("true" if e.value else "false", B)
             if isinstance(e.value, int):
                 return (f"({e.value})" if e.value < 0 else str(e.value), Z)
+            if e.value is None and c.obj_fragment:
+                return ("None", "none")
             self.fail(e, "constant")
         if isinstance(e, ast.Name):
             if e.id in self.env:
@@ -174,6 +196,10 @@ class FunTr:
         if isinstance(e, ast.UnaryOp):
             if isinstance(e.op, ast.USub):
                 s, t = self.expr(e.operand)
+                if c.obj_fragment and ("USub", t) in c.unops:
+                    tmpl, rett, monad = c.unops[("USub", t)]
+                    code = "(" + tmpl.format(x=s) + ")"
+                    return self.hoist(code, rett, e) if monad == "result" else (code, rett)
                 self.need(t, Z, e)
                 return (f"(- {s})", Z)
             if isinstance(e.op, ast.Not):
@@ -182,6 +208,13 @@ class FunTr:
         if isinstance(e, ast.BinOp):
             l, lt = self.expr(e.left)
             r, rt = self.expr(e.right)
+            if c.obj_fragment and (lt not in (Z, B) or rt not in (Z, B)):
+                key = (type(e.op).__name__, lt, rt)
+                if key not in c.binops:
+                    self.fail(e, f"operator {key} on non-integers")
+                tmpl, rett, monad = c.binops[key]
+                code = "(" + tmpl.format(l=l, r=r) + ")"
+                return self.hoist(code, rett, e) if monad == "result" else (code, rett)
             l, r = self.toZ(l, lt, e), self.toZ(r, rt, e)
             ops = {ast.Add: "+", ast.Sub: "-", ast.Mult: "*", ast.FloorDiv: "/", ast.Mod: "mod"}
             for k, o in ops.items():
@@ -268,8 +301,30 @@ class FunTr:
         self.fail(e)
 
     def cmp(self, left, op, right, node):
+        if (self.ctx.obj_fragment and isinstance(op, (ast.In, ast.NotIn)) and isinstance(right, ast.Tuple) and right.elts
+                and all(isinstance(x, ast.Constant) and isinstance(x.value, int) and not isinstance(x.value, bool) for x in right.elts)):
+            l, lt = self.expr(left)          # x in (c1, c2, ...): equality with one of the integer constants
+            l = self.toZ(l, lt, node)
+            code = "(" + " || ".join(f"({l} =? {x.value})" for x in right.elts) + ")"
+            return f"(negb {code})" if isinstance(op, ast.NotIn) else code
         l, lt = self.expr(left)
         r, rt = self.expr(right)
+        if self.ctx.obj_fragment and (lt not in (Z, B) or rt not in (Z, B) or isinstance(op, (ast.Is, ast.IsNot))):
+            opn = type(op).__name__
+            neg = opn in ("IsNot", "NotEq")
+            base = {"IsNot": "Is", "NotEq": "Eq"}.get(opn, opn)
+            code = None
+            if base == "Is" and "none" in (lt, rt):
+                other, ot = (r, rt) if lt == "none" else (l, lt)
+                if ot == "none":
+                    code = "true"
+                elif is_opt(ot):
+                    code = f"(match {other} with None => true | Some _ => false end)"
+            elif (base, lt, rt) in self.ctx.cmpops:
+                code = "(" + self.ctx.cmpops[(base, lt, rt)].format(l=l, r=r) + ")"
+            if code is None:
+                self.fail(node, f"comparison {(opn, lt, rt)} on non-integers")
+            return f"(negb {code})" if neg else code
         if lt == B and rt == B and isinstance(op, (ast.Eq, ast.NotEq)):
             s = f"(Bool.eqb {l} {r})"
             return s if isinstance(op, ast.Eq) else f"(negb {s})"
@@ -294,6 +349,8 @@ class FunTr:
             return f"(negb ({s} =? 0))"
         if t in ("list", "list2") and self.ctx.list_fragment:
             return f"(negb (plen {s} =? 0))"
+        if self.ctx.obj_fragment and t in self.ctx.truth:
+            return "(" + self.ctx.truth[t].format(x=s) + ")"
         self.fail(e, "truthiness of non-scalar")
 
     def toZ(self, s, t, node):
@@ -309,9 +366,35 @@ class FunTr:
 
     def call(self, e: ast.Call):
         c = self.ctx
+        f = e.func
+        if c.obj_fragment and isinstance(f, ast.Name) and f.id in c.kwfuncs:
+            coq, params, defaults, types, rett, monad = c.kwfuncs[f.id]
+            given = {}
+            if len(e.args) > len(params):
+                self.fail(e, "too many positional arguments")
+            for p_, a_ in zip(params, e.args):        # Python evaluates positional arguments, then keywords, left to right
+                given[p_] = self.expr(a_)
+            for kw in e.keywords:
+                if kw.arg is None or kw.arg not in params or kw.arg in given:
+                    self.fail(e, "keyword argument")
+                given[kw.arg] = self.expr(kw.value)
+            conv = []
+            for p_, ty in zip(params, types):
+                if p_ in given:
+                    s_, t_ = given[p_]
+                    if ty == Z:
+                        s_ = self.toZ(s_, t_, e)
+                    elif t_ != ty:
+                        self.fail(e, f"argument {p_} has type {t_}, want {ty}")
+                    conv.append(s_)
+                elif p_ in defaults:
+                    conv.append(defaults[p_])
+                else:
+                    self.fail(e, f"missing argument {p_}")
+            code = f"({coq} " + " ".join(conv) + ")"
+            return self.hoist(code, rett, e) if monad == "result" else (code, rett)
         if e.keywords:
             self.fail(e, "keyword arguments")
-        f = e.func
         if isinstance(f, ast.Name):
             n = f.id
             args = [self.expr(a) for a in e.args]
@@ -455,6 +538,19 @@ class FunTr:
         return any(isinstance(n, (ast.Return, ast.Raise, ast.Break, ast.Assert)) or self.raising_call(n) or self.list_leaves(n)
                    for s in stmts for n in ast.walk(s))
 
+    def none_tests(self, test):
+        """[x, y, ...] when test is `x is None` or `x is None or y is None ...` on local names of optional type"""
+        parts = test.values if isinstance(test, ast.BoolOp) and isinstance(test.op, ast.Or) else [test]
+        out = []
+        for p in parts:
+            if (isinstance(p, ast.Compare) and len(p.ops) == 1 and isinstance(p.ops[0], ast.Is) and isinstance(p.left, ast.Name)
+                    and isinstance(p.comparators[0], ast.Constant) and p.comparators[0].value is None
+                    and is_opt(self.env.get(p.left.id)) and p.left.id not in out):
+                out.append(p.left.id)
+            else:
+                return []
+        return out
+
     def list_leaves(self, n):
         """list-fragment statements that can raise (IndexError / ValueError) or are translated as a recursive function"""
         if not self.ctx.list_fragment:
@@ -544,6 +640,14 @@ class FunTr:
                 self.fail(s, "bare return")
             e, t = self.expr(s.value)
             pend = self.take()
+            if self.ret_decl is not None:
+                d = self.ret_decl
+                if is_opt(d) and t == "none":
+                    e, t = "None", d
+                elif is_opt(d) and t == d[1]:
+                    e, t = f"(Some {e})", d
+                elif t != d:
+                    self.fail(s, f"returns {t}, declared {d}")
             if isinstance(t, tuple) and len(t) == 2 and t[0] == "result":
                 # a model primitive that can raise: its result is the function's result
                 if self.monad != "result":
@@ -560,7 +664,7 @@ class FunTr:
                 kind = s.exc.id
             return f"Raise E_{kind}"
         if isinstance(s, (ast.Assign, ast.AnnAssign)):
-            if isinstance(s, ast.Assign) and len(s.targets) > 1 and self.ctx.list_fragment \
+            if isinstance(s, ast.Assign) and len(s.targets) > 1 and (self.ctx.list_fragment or self.ctx.obj_fragment) \
                     and all(isinstance(t_, ast.Name) for t_ in s.targets):
                 # a = b = e: e is evaluated once, then bound to the targets from left to right
                 first = ast.copy_location(ast.Assign(targets=[s.targets[0]], value=s.value), s)
@@ -645,6 +749,37 @@ class FunTr:
             pend = self.take()
             self.env[s.target.id] = t
             return self.wrap(pend, f"let {self.v(s.target.id)} := {e} in\n  " + self.block(rest, k))
+        if isinstance(s, ast.Expr) and self.ctx.obj_fragment and self.raising_call(s.value):
+            # a call made for its checks only: the result is dropped, an exception propagates
+            self.expr(s.value)
+            pend = self.take()
+            return self.wrap(pend, self.block(rest, k))
+        if isinstance(s, ast.If) and self.ctx.obj_fragment and not s.orelse:
+            names = self.none_tests(s.test)
+            if names and len(s.body) == 1 and isinstance(s.body[0], ast.Assign) and len(names) == 1 \
+                    and len(s.body[0].targets) == 1 and isinstance(s.body[0].targets[0], ast.Name) and s.body[0].targets[0].id == names[0]:
+                # if x is None: x = e      (default of an optional value)
+                x = names[0]
+                e, t = self.expr(s.body[0].value)
+                pend = self.take()
+                inner = self.env[x][1]
+                if t == Z and inner == B or t == B and inner == Z:
+                    self.fail(s, "default of another type")
+                if t != inner:
+                    self.fail(s, f"default of type {t} for an optional {inner}")
+                self.env[x] = inner
+                return self.wrap(pend, f"let {self.v(x)} := match {self.v(x)} with None => {e} | Some w_ => w_ end in\n  " + self.block(rest, k))
+            if names and self.terminates(s.body):
+                # if x is None [or y is None]: <leaves>     -> afterwards x (and y) are known not to be None
+                env0 = dict(self.env)
+                code = "\u0001"
+                for x in names:
+                    body = self.block(s.body, None)
+                    self.env = dict(env0)
+                    code = code.replace("\u0001", f"match {self.v(x)} with\n  | None => (\n  {body})\n  | Some {self.v(x)} =>\n  \u0001\n  end")
+                    env0[x] = env0[x][1]
+                    self.env = dict(env0)
+                return code.replace("\u0001", self.block(rest, k))
         if isinstance(s, ast.If):
             c = self.cond(s.test)
             pend = self.take()
@@ -661,7 +796,8 @@ class FunTr:
                     if n_ in self.env and self.env[n_] != ty:
                         # (list fragment: the continuation was translated separately inside each branch with that branch's own
                         #  typing, e.g. `fold = 0` / `fold = a > b`; nothing is translated after this point with the joined typing)
-                        if not (self.ctx.list_fragment and {self.env[n_], ty} == {Z, B}):
+                        if not ((self.ctx.list_fragment and {self.env[n_], ty} == {Z, B})
+                                or (self.ctx.obj_fragment and (self.env[n_] == ("opt", ty) or ty == ("opt", self.env[n_])))):
                             self.fail(s, f"variable {n_} has different types in branches")
                     self.env.setdefault(n_, ty)
                 return self.wrap(pend, f"if {c} then (\n  {a})\n  else (\n  {b})")
